@@ -253,7 +253,18 @@ def run_searcher(built, fs, K):
     except Exception as e:  # pylint: disable=broad-except
         return {'err': classify_exc(e)}
     st = fs.stats
+    sections = {}
+    for d in built.scn['defs']:
+        if d['type'] == 'seq' and d['tag'] not in sections:
+            try:
+                found = results.find_sequence_by_tag(d['tag'])
+            except KeyError:
+                found = {}      # tag never registered on this searcher
+            sections[d['tag']] = sorted(
+                ([[r.tag, r.linenumber, [canon_val(v) for v in r]] for r in sec]
+                 for sec in found.values()), key=repr)
     return {'paths': observe_collection(built, results, K),
+            'sections': sections,
             'stats': {'lines': st['lines_searched'], 'results': st['results'],
                       'searches': st['searches'],
                       'searches_by_job': list(st['searches_by_job']),
